@@ -427,6 +427,79 @@ def run_history(ctx, i, rng):
       ctx.check(close(ol, op_), 'history:stale_trace', lambda: dict(case=desc, step=repr(st)))
 
 
+_ATTR = {}
+
+
+def attr_classes():
+  if _ATTR:
+    return _ATTR
+  import flax.linen as nn
+  import jax.numpy as jnp
+  from typing import Any
+
+  class A(nn.Module):
+    axis: Any = -1
+    scale: Any = 1.0
+    tags: Any = ()
+    cfg: Any = None
+
+    @nn.compact
+    def __call__(self, x):
+      p = self.param('p', nn.initializers.ones, (x.shape[-1],))
+      ax = self.axis if isinstance(self.axis, (int, tuple)) else int(self.axis)
+      y = jnp.sum(x * p, axis=ax) * self.scale
+      for t in (self.tags if isinstance(self.tags, tuple) else (self.tags,)):
+        y = y + (len(t) if isinstance(t, str) else t)
+      if self.cfg is not None:
+        y = y * dict(self.cfg)['k']
+      return y
+
+  class Holder(nn.Module):
+    child: nn.Module
+
+    @nn.compact
+    def __call__(self, x):
+      return self.child(x) + 1.0
+
+  _ATTR.update(A=A, JA=nn.jit(A), JHolder=nn.jit(Holder), Holder=Holder)
+  return _ATTR
+
+
+# attribute values that differ only in one hashable field; neighbours are chosen so that Python hashes collide
+# (hash(-1) == hash(-2), hash(-1.0) == hash(-2.0), hash(2.0**61) == hash(1.0)): equality of cache keys must not be decided by hash
+ATTR_VALUES = [dict(axis=-1), dict(axis=-2), dict(axis=0), dict(axis=(-1,)), dict(axis=(-2,)), dict(scale=-1.0), dict(scale=-2.0),
+               dict(scale=-1), dict(scale=-2), dict(scale=1.0), dict(scale=2.0 ** 61), dict(tags=(-1,)), dict(tags=(-2,)), dict(tags=('a', -1)),
+               dict(tags=('a', -2)), dict(tags='ab'), dict(tags='abc'), dict(cfg=(('k', -1),)), dict(cfg=(('k', -2),)),
+               dict(axis=-2, scale=-1.0), dict(axis=-1, scale=-2.0)]
+
+
+def run_attr_history(ctx, i, rng):
+  """One jitted class, many instances that differ in one attribute only, called in a seeded order: every call must equal the
+  plain module with the same attributes (a stale trace shows as the previous attribute's result)."""
+  import jax
+  C = attr_classes()
+  form = ['class', 'holder'][i % 2]
+  order = list(range(len(ATTR_VALUES)))
+  rng.shuffle(order)
+  order = order[:8]
+  desc = dict(form=form, order=[ATTR_VALUES[j] for j in order])
+  with ctx.case('attr_history', i, desc, nontrivial=True):
+    x = np.random.default_rng(i).uniform(-1, 1, size=(2, 3, 3)).astype(np.float32)
+    v = C['A']().init(jax.random.key(0), x)
+    for j in order:
+      kw = ATTR_VALUES[j]
+      if form == 'class':
+        got = C['JA'](**kw).apply(v, x)
+        want = C['A'](**kw).apply(v, x)
+      else:
+        hv = {'params': {'child': v['params']}}
+        got = C['JHolder'](C['A'](**kw)).apply(hv, x)
+        want = C['Holder'](C['A'](**kw)).apply(hv, x)
+      ctx.op('nn.jit(attribute history)')
+      ctx.check(close(got, want), 'history:stale_trace:attribute_only', lambda: dict(form=form, attrs=repr(kw), order=repr(desc['order']),
+                                                                                   got=np.asarray(got).tolist(), want=np.asarray(want).tolist()))
+
+
 def run_bad_write(ctx, i, rng):
   import jax
   from flax import errors
@@ -462,5 +535,7 @@ def run(ctx):
     run_rng(ctx, i, ctx.rng('rng', i))
   for i in ctx.indices(30 if ctx.tier == 'quick' else 300, 'history'):
     run_history(ctx, i, ctx.rng('history', i))
+  for i in ctx.indices(24 if ctx.tier == 'quick' else 200, 'attr_history'):
+    run_attr_history(ctx, i, ctx.rng('attr_history', i))
   for i in ctx.indices(15 if ctx.tier == 'quick' else 60, 'bad_write'):
     run_bad_write(ctx, i, ctx.rng('bad', i))
